@@ -178,6 +178,8 @@ class SockObj(object):
         self._closed = False
         self._fd = k.alloc_fd(self)
         self._ord = k._next_ord()
+        cur = k.sim.current
+        self.host = cur.host if cur is not None else "?"      # which simulated host/process created this descriptor
 
     # identity --------------------------------------------------------------------------
     def __hash__(self):
